@@ -35,7 +35,7 @@ from tornado.escape import native_str, utf8
 from tornado.log import app_log, gen_log
 from tornado.util import GzipDecompressor
 
-CR_OR_LF_RE = re.compile(b"\r|\n")
+CR_OR_LF_RE = re.compile(b"\r|\n|\x00")
 
 
 class _QuietException(Exception):
@@ -463,13 +463,18 @@ class HTTP1Connection(httputil.HTTPConnection):
         # TODO: headers are supposed to be of type str, but we still have some
         # cases that let bytes slip through. Remove these native_str calls when those
         # are fixed.
+        for n, _ in headers.get_all():
+            if not httputil._ABNF.field_name.fullmatch(native_str(n)):
+                raise ValueError("Illegal header name: %r" % n)
         header_lines = (
             native_str(n) + ": " + native_str(v) for n, v in headers.get_all()
         )
         lines.extend(line.encode("latin1") for line in header_lines)
         for line in lines:
             if CR_OR_LF_RE.search(line):
-                raise ValueError("Illegal characters (CR or LF) in header: %r" % line)
+                raise ValueError(
+                    "Illegal characters (CR, LF or NUL) in header: %r" % line
+                )
         future = None
         if self.stream.closed():
             future = self._write_future = Future()
